@@ -4,6 +4,7 @@ import (
 	"fmt"
 	"strconv"
 	"strings"
+	"sync"
 	"time"
 
 	"github.com/gofiber/fiber/v3"
@@ -27,9 +28,10 @@ func init() {
 		Rule: "per run the tape draws backend (built-in memory storage / SimStorage with optional Get/Set/Delete faults / in-repo internal/storage/memory as external storage / session store behind the session middleware), extractor (header, form urlencoded+multipart, query, param, cookie), " +
 			"SingleUseToken, IdleTimeout, CookieSessionOnly, cookie name, key generator (counter based / default UUID), TrustedOrigins (exact, trailing slash, wildcard subdomain), proxy trust mode, route-level or app-level registration, clock phase, " +
 			"1-3 browsers and 4-28 sequential steps: safe request, unsafe request (token: current/none/forged/other browser's/stale/mangled x cookie: natural/equal/absent/different x Origin and Referer from 10+ classes x http/https x Host), " +
-			"DeleteToken route (GET/POST), cookie tampering, time advances around the idle timeout; " +
+			"DeleteToken route (GET/POST), cookie tampering, time advances around the idle timeout; request Hosts with and without non-default ports and Origin/Referer naming the same host name with no / default / other port; " +
+			"concurrent stratum (a quarter of the fault-free runs, storage backends): 2-3 browser tasks x 2-6 requests with preemption against a protected handler that yields and takes 0-1 s, including replays of a token whose request is inside the handler; " +
 			"distinct = hash of (configuration, per step (kind, token class, cookie class, origin class, referer class, scheme, admitted?, first model reason)); " +
-			"non-trivial = at least one unsafe request admitted and one rejected, or a fault fired",
+			"non-trivial = at least one unsafe request admitted and one rejected, or a fault fired; concurrent stratum: a replay was issued while its victim was inside the protected handler",
 		Assumptions: []string{
 			"within 2 s of the modelled expiry of a token both outcomes are accepted (storage TTLs run on the 1 s coarse clock)",
 			"Origin 'null' is treated like an absent Origin header (DESIGN A.4); on https an absent Referer (with no Origin) must be rejected (docs: referer checking is always carried out for HTTPS)",
@@ -37,7 +39,8 @@ func init() {
 			"with the session backend the store consulted is the browser's session: a token of another session counts as not issued to that store",
 			"completeness (a request the model admits is admitted; a safe request leaves a usable cookie) is demanded in fault-free runs only; after an injected Delete error the consumed/deleted state of the tokens of that request is unknown",
 			"external storages get a private copy of the key (as a storage behind a wire serialises it); in a quarter of the fault-free header/cookie-extractor runs the string handed to Storage.Set is also kept and compared after every later request (oracle storage-key-aliases-request-buffer)",
-			"storage faults are injected on the SimStorage backend only; Origin/Referer values are those a browser can produce (no upper-case origins, no explicit default ports)",
+			"storage faults are injected on the SimStorage backend only; Origin/Referer values are those a browser can produce (no upper-case origins; an explicit default port only where it names a foreign origin); same origin = same scheme, host and port, an absent port being the scheme's default",
+			"concurrent stratum: a single-use token is consumed from the moment the protected handler is entered for a request presenting it; only a request issued after that moment is judged, overlapping earlier ones are not; expiry, deletion and the session backend (two requests of one session race for the session record) are not judged there",
 		},
 		Components: map[string]string{
 			"csrf middleware (handler, extractors, managers, origin checks)": "real (instrumented)",
@@ -83,6 +86,11 @@ type csrfOp struct {
 	noHandler      bool
 	status         int
 	getF, setF, dF bool
+	// concurrent stratum
+	dur           time.Duration // how long the protected handler takes
+	issue, hstart uint64        // event stamps: request issued / protected handler entered
+	ret           uint64        // response received
+	victim        int           // replay: the request whose token is replayed (-1 none)
 }
 
 type csrfWild struct{ scheme, suffix string }
@@ -176,25 +184,46 @@ func csrfAllowed(v, reqScheme, reqHost string, exact []string, wild []csrfWild) 
 	if sch != "http" && sch != "https" {
 		return false, true
 	}
-	o := sch + "://" + auth
-	if o == reqScheme+"://"+strings.ToLower(reqHost) {
+	// an origin is the triple scheme, host, port; an absent port is the scheme's default
+	name, port := csrfSplitPort(auth, sch)
+	if rn, rp := csrfSplitPort(strings.ToLower(reqHost), reqScheme); sch == reqScheme && name == rn && port == rp {
 		return true, true
 	}
 	for _, e := range exact {
-		if o == e {
+		es, ea, _ := csrfOriginOf(e)
+		if en, ep := csrfSplitPort(ea, es); sch == es && name == en && port == ep {
 			return true, true
 		}
 	}
 	for _, w := range wild {
-		if sch == w.scheme && strings.HasSuffix(auth, "."+w.suffix) && len(auth) > len(w.suffix)+1 {
+		if sch == w.scheme && port == csrfDefaultPort(sch) && strings.HasSuffix(name, "."+w.suffix) && len(name) > len(w.suffix)+1 {
 			return true, true
 		}
 	}
 	return false, true
 }
 
+func csrfDefaultPort(scheme string) string {
+	if scheme == "https" {
+		return "443"
+	}
+	return "80"
+}
+
+// csrfSplitPort splits host[:port]; an absent port reads as the scheme's default.
+func csrfSplitPort(auth, scheme string) (name, port string) {
+	name, port = auth, ""
+	if i := strings.LastIndexByte(auth, ':'); i >= 0 && !strings.Contains(auth[i:], "]") {
+		name, port = auth[:i], auth[i+1:]
+	}
+	if port == "" {
+		port = csrfDefaultPort(scheme)
+	}
+	return name, port
+}
+
 func csrfHostname(h string) string {
-	if i := strings.LastIndexByte(h, ':'); i >= 0 {
+	if i := strings.LastIndexByte(h, ':'); i >= 0 && !strings.Contains(h[i:], "]") {
 		return h[:i]
 	}
 	return h
@@ -203,29 +232,38 @@ func csrfHostname(h string) string {
 func csrfMain(s *simrt.Sim, info *harness.RunInfo) {
 	faults := s.Chance(500)
 	info.Faults = faults
+	// third stratum: concurrent browsers against a protected handler that takes time
+	concurrent := !faults && s.Chance(250)
 	backend := "memory"
-	if faults {
+	switch {
+	case faults:
 		backend = "sim"
-	} else {
+	case concurrent:
+		// (two requests of one session race for the session record whatever this middleware does: not judged)
+		backend = simrt.PickS(s, "memory", "sim", "extmem")
+	default:
 		backend = simrt.PickS(s, "memory", "sim", "session", "extmem", "memory", "sim", "session")
 	}
 	extractor := simrt.PickS(s, "header", "form", "query", "param", "header", "form", "header", "cookie")
 	singleUse := s.Chance(400)
+	if concurrent {
+		singleUse = !s.Chance(250)
+	}
 	idle := simrt.PickS(s, 20*time.Second, 3*time.Second, 6*time.Second, 90*time.Second, 20*time.Second, 6*time.Second, 0)
 	sessionOnly := s.Chance(300)
 	cookieName := simrt.PickS(s, "csrf_", "__Host-csrf_", "xsrf")
-	customGen := !s.Chance(150) || backend == "sim" // SimStorage logs its keys: random tokens would make the event log irreproducible
+	customGen := !s.Chance(150) || backend == "sim" || concurrent // SimStorage logs its keys: random tokens would make the event log irreproducible
 	exactMode := s.Draw(4)
 	wildcard := s.Chance(500)
 	proxyMode := simrt.PickS(s, 0, 0, 0, 1, 1, 2) // 0 TrustProxy off, 1 on + client is a trusted proxy, 2 on + client not trusted
 	routeLevel := extractor == "param" || s.Chance(250)
 	// header and cookie values live in buffers owned by the connection's request object
 	// (created per run): only there is the content of a retained key string reproducible
-	trackKeys := !faults && (backend == "sim" || backend == "extmem") && (extractor == "header" || extractor == "cookie") && s.Chance(250)
+	trackKeys := !faults && !concurrent && (backend == "sim" || backend == "extmem") && (extractor == "header" || extractor == "cookie") && s.Chance(250)
 	hostility := simrt.PickS(s, 300, 100, 600, 900) // permille of unsafe requests with a hostile token / origin part
 	nb := s.Range(1, 3)
 	nsteps := s.Range(4, 28)
-	mainHost := simrt.PickS(s, "example.com", "app.example.com", "example.com:8080", "shop.test")
+	mainHost := simrt.PickS(s, "example.com", "app.example.com", "example.com:8080", "shop.test", "example.com:8443", "app.example.com:3000", "example.com:8080")
 	phase := s.Draw(1000)
 	failGet, failSet, failDel := 0, 0, 0
 	if faults {
@@ -371,15 +409,28 @@ func csrfMain(s *simrt.Sim, info *harness.RunInfo) {
 		app.Use(sh)
 		cfg.Session = store
 	}
-	cfgLine := fmt.Sprintf("faults=%v(get=%d set=%d del=%d) backend=%s extractor=%s header=%s singleUse=%v idle=%v sessionOnly=%v cookie=%s customGen=%v trusted=%q proxyMode=%d routeLevel=%v trackKeys=%v hostility=%d browsers=%d steps=%d host=%s phase=%d",
-		faults, failGet, failSet, failDel, backend, extractor, headerName, singleUse, idle, sessionOnly, cookieName, customGen, trusted, proxyMode, routeLevel, trackKeys, hostility, nb, nsteps, mainHost, phase)
+	if concurrent && idle != 90*time.Second {
+		idle, idleEff = 20*time.Second, 20*time.Second // expiry plays no part in the concurrent histories
+	}
+	cfg.IdleTimeout = idle
+	cfgLine := fmt.Sprintf("faults=%v(get=%d set=%d del=%d) concurrent=%v backend=%s extractor=%s header=%s singleUse=%v idle=%v sessionOnly=%v cookie=%s customGen=%v trusted=%q proxyMode=%d routeLevel=%v trackKeys=%v hostility=%d browsers=%d steps=%d host=%s phase=%d",
+		faults, failGet, failSet, failDel, concurrent, backend, extractor, headerName, singleUse, idle, sessionOnly, cookieName, customGen, trusted, proxyMode, routeLevel, trackKeys, hostility, nb, nsteps, mainHost, phase)
 	s.Logf("cfg %s", cfgLine)
 
 	mw := csrf.New(cfg)
 	page := func(c fiber.Ctx) error {
 		op := ops[atoi(c.Get("X-Op"))]
 		op.ran = true
+		op.hstart = s.Stamp()
 		op.ctxTok = strings.Clone(csrf.TokenFromContext(c))
+		if concurrent {
+			s.Logf("op%d protected handler entered (takes %v)", op.id, op.dur)
+			simrt.Yield(600)
+			if op.dur > 0 {
+				simrt.Sleep(op.dur)
+			}
+			simrt.Yield(601)
+		}
 		return c.SendString("ok")
 	}
 	logout := func(c fiber.Ctx) error {
@@ -442,7 +493,7 @@ func csrfMain(s *simrt.Sim, info *harness.RunInfo) {
 		}
 		return strings.Join(parts, "; ")
 	}
-	otherHosts := []string{"example.com", "app.example.com", "example.com:8080", "shop.test"}
+	otherHosts := []string{"example.com", "app.example.com", "example.com:8080", "shop.test", "example.com:8443", "app.example.com:3000"}
 	// originValue builds a header value of the given class for a request seen as scheme://host.
 	originValue := func(kind int, scheme, host string) (string, string) {
 		other := map[string]string{"http": "https", "https": "http"}[scheme]
@@ -470,12 +521,59 @@ func csrfMain(s *simrt.Sim, info *harness.RunInfo) {
 			return "http://a.example.com", "wild-other-scheme"
 		case 10:
 			return "https://" + simrt.PickS(s, "other.test", "evil.io", "example.org"), "foreign"
+		case 12, 13:
+			// the request's own host name without its (non-default) port / with the scheme's default port
+			name, port := csrfSplitPort(host, scheme)
+			if port == csrfDefaultPort(scheme) {
+				return scheme + "://" + name + ":9443", "other-port"
+			}
+			if kind == 12 {
+				return scheme + "://" + name, "same-name-no-port"
+			}
+			v := scheme + "://" + name + ":" + csrfDefaultPort(scheme)
+			if ok, _ := csrfAllowed(v, scheme, host, trustedExact, wild); ok {
+				// a trusted origin spelled with its default port: whether that spelling must be
+				// recognised is not the question here (browsers never send it)
+				return scheme + "://" + name, "same-name-no-port"
+			}
+			return v, "same-name-default-port"
 		}
 		return "", "absent"
 	}
 
+	// attach puts the token where the configured extractor looks for it.
+	attach := func(path string, hdr [][2]string, x string, multipart bool) (string, [][2]string, []byte) {
+		var body []byte
+		switch extractor {
+		case "header":
+			hdr = append(hdr, [2]string{headerName, x})
+		case "query":
+			path += "?a=1&_csrf=" + x
+		case "param":
+			path += "/" + x
+		case "form":
+			if multipart {
+				bd := "XbOuNdArY7"
+				hdr = append(hdr, [2]string{"Content-Type", "multipart/form-data; boundary=" + bd})
+				body = []byte("--" + bd + "\r\nContent-Disposition: form-data; name=\"msg\"\r\n\r\nhello\r\n--" + bd + "\r\nContent-Disposition: form-data; name=\"_csrf\"\r\n\r\n" + x + "\r\n--" + bd + "--\r\n")
+			} else {
+				hdr = append(hdr, [2]string{"Content-Type", "application/x-www-form-urlencoded"})
+				body = []byte("msg=hello&_csrf=" + x)
+			}
+		}
+		return path, hdr, body
+	}
+
 	admitted, rejected := 0, 0
 	h := newHasher().str(cfgLine)
+	if concurrent {
+		csrfConcurrent(s, info, &csrfConc{
+			cfgLine: cfgLine, singleUse: singleUse, extractor: extractor, cookieName: cookieName, host: mainHost, nb: max(2, nb),
+			app: app, ops: &ops, tokens: tokens, alias: alias, forged: forged, attach: attach,
+			exact: trustedExact, wild: wild,
+		})
+		return
+	}
 	longSleeps := 0
 	for step := 0; step < nsteps && !s.Failed(); step++ {
 		bi := s.Draw(nb)
@@ -574,10 +672,10 @@ func csrfMain(s *simrt.Sim, info *harness.RunInfo) {
 			okind = simrt.PickS(s, 0, 1, 0)
 			rkind = simrt.PickS(s, 1, 1, 0)
 			if s.Chance(hostility) {
-				okind = simrt.PickS(s, 0, 1, 2, 3, 4, 5, 6, 7, 8, 9, 10, 7, 0, 2, 3)
+				okind = simrt.PickS(s, 0, 1, 2, 3, 4, 5, 6, 7, 8, 9, 10, 7, 0, 2, 3, 12, 13, 12)
 			}
 			if s.Chance(hostility) {
-				rkind = simrt.PickS(s, 0, 1, 2, 3, 4, 5, 6, 8, 9, 10, 11, 2, 3, 11)
+				rkind = simrt.PickS(s, 0, 1, 2, 3, 4, 5, 6, 8, 9, 10, 11, 2, 3, 11, 12, 13, 12)
 			}
 		}
 		op.origin, op.originKind = originValue(okind, scheme, op.host)
@@ -656,23 +754,7 @@ func csrfMain(s *simrt.Sim, info *harness.RunInfo) {
 		var body []byte
 		shown := path // without the token (tokens of the default generator are random: never log them)
 		if unsafe && op.x != "" {
-			switch extractor {
-			case "header":
-				hdr = append(hdr, [2]string{headerName, op.x})
-			case "query":
-				path += "?a=1&_csrf=" + op.x
-			case "param":
-				path += "/" + op.x
-			case "form":
-				if s.Chance(250) {
-					bd := "XbOuNdArY7"
-					hdr = append(hdr, [2]string{"Content-Type", "multipart/form-data; boundary=" + bd})
-					body = []byte("--" + bd + "\r\nContent-Disposition: form-data; name=\"msg\"\r\n\r\nhello\r\n--" + bd + "\r\nContent-Disposition: form-data; name=\"_csrf\"\r\n\r\n" + op.x + "\r\n--" + bd + "--\r\n")
-				} else {
-					hdr = append(hdr, [2]string{"Content-Type", "application/x-www-form-urlencoded"})
-					body = []byte("msg=hello&_csrf=" + op.x)
-				}
-			}
+			path, hdr, body = attach(path, hdr, op.x, extractor == "form" && s.Chance(250))
 		}
 		sidBefore, _ := b.Get("session_id")
 		cur = op
@@ -909,4 +991,222 @@ func csrfMain(s *simrt.Sim, info *harness.RunInfo) {
 	info.StateHash = h.h
 	info.Nontrivial = (admitted > 0 && rejected > 0) || nfaults > 0
 	info.Sample = map[string]any{"config": cfgLine, "requests": len(ops), "unsafe_admitted": admitted, "unsafe_rejected": rejected}
+}
+
+// ---- concurrent stratum ---------------------------------------------------------
+//
+// 2-3 browsers run as concurrent tasks against a protected handler that yields and
+// takes simulated time; some requests replay a token another request is just
+// using. Only what does not depend on the interleaving is judged: the origin rule,
+// the token having been issued and matching the cookie, and single use: a token
+// is consumed from the moment the protected handler runs for a request presenting
+// it, so a request ISSUED after that moment must not be admitted with it.
+
+type csrfConc struct {
+	cfgLine    string
+	singleUse  bool
+	extractor  string
+	cookieName string
+	host       string
+	nb         int
+	app        *fiber.App
+	ops        *[]*csrfOp
+	tokens     map[string]*csrfTok
+	alias      func(string) string
+	forged     func() string
+	attach     func(path string, hdr [][2]string, x string, multipart bool) (string, [][2]string, []byte)
+	exact      []string
+	wild       []csrfWild
+}
+
+func csrfConcurrent(s *simrt.Sim, info *harness.RunInfo, k *csrfConc) {
+	preempt := simrt.PickS(s, 150, 0, 50, 400)
+	nper := make([]int, k.nb)
+	for i := range nper {
+		nper[i] = s.Range(2, 6)
+	}
+	s.Logf("concurrent: %d browsers, preempt=%d", k.nb, preempt)
+	s.SetPreempt(preempt)
+	var wg sync.WaitGroup
+	for bi := 0; bi < k.nb; bi++ {
+		wg.Add(1)
+		simrt.GoNamed("browser"+strconv.Itoa(bi), func() {
+			defer wg.Done()
+			b := harness.NewBrowser("b" + strconv.Itoa(bi))
+			conn := harness.NewConn(k.app, "10.0.1."+strconv.Itoa(bi+1))
+			for j := 0; j < nper[bi] && !s.Failed(); j++ {
+				simrt.Sleep(simrt.PickS(s, 0, 0, 5*time.Millisecond, 100*time.Millisecond, 400*time.Millisecond, time.Second))
+				own, _ := b.Get(k.cookieName)
+				op := &csrfOp{id: len(*k.ops), br: bi, kind: "unsafe", method: simrt.PickS(s, "POST", "POST", "PUT", "PATCH"), host: k.host, victim: -1}
+				*k.ops = append(*k.ops, op)
+				op.dur = simrt.PickS(s, 200*time.Millisecond, 0, 5*time.Millisecond, time.Second, 50*time.Millisecond)
+				op.x, op.xKind, op.cookie, op.cookieKind = own, "current", own, "natural"
+				path := "/do"
+				c := s.Draw(12)
+				if own == "" && c < 11 {
+					c = 11
+				}
+				switch {
+				case c < 5:
+				case c < 9:
+					// replay the token of a request of another browser whose protected
+					// handler has been entered; prefer one that is still in there
+					var inflight, done []*csrfOp
+					for _, o := range *k.ops {
+						if o.br != bi && o.kind == "unsafe" && o.x != "" && o.hstart != 0 {
+							if o.ret == 0 {
+								inflight = append(inflight, o)
+							} else {
+								done = append(done, o)
+							}
+						}
+					}
+					pool := inflight
+					if len(pool) == 0 || (len(done) > 0 && s.Chance(250)) {
+						pool = done
+					}
+					if len(pool) > 0 {
+						v := pool[s.Draw(len(pool))]
+						op.victim = v.id
+						op.x, op.xKind, op.cookie, op.cookieKind = v.x, "replay", v.x, "equal"
+					}
+				case c < 10:
+					op.x, op.xKind, op.cookie, op.cookieKind = k.forged(), "forged", "", "equal"
+					op.cookie = op.x
+				case c < 11:
+					op.x, op.xKind = k.forged(), "forged"
+				default:
+					op.kind, op.method, path = "safe", "GET", "/page"
+				}
+				unsafe := op.kind == "unsafe"
+				if unsafe && k.extractor == "cookie" {
+					op.x = op.cookie
+				}
+				hdr := [][2]string{{"X-Op", strconv.Itoa(op.id)}}
+				if unsafe {
+					switch s.Draw(6) {
+					case 0, 1, 2:
+						op.originKind = "absent"
+					case 3, 4:
+						op.origin, op.originKind = "http://"+k.host, "same"
+					default:
+						op.origin, op.originKind = simrt.PickS(s, "https://evilexample.com", "http://evil.io", "https://"+k.host), "hostile"
+					}
+					if op.origin != "" {
+						hdr = append(hdr, [2]string{"Origin", op.origin})
+					}
+				}
+				if op.cookie != "" {
+					hdr = append(hdr, [2]string{"Cookie", k.cookieName + "=" + op.cookie})
+				}
+				var body []byte
+				if unsafe && op.x != "" {
+					path, hdr, body = k.attach(path, hdr, op.x, false)
+				}
+				op.issue = s.Stamp()
+				s.Logf("op%d b%d issue %s %s token=%s(%s victim=op%d) cookie=%s origin=%q t=%s", op.id, bi, op.kind, op.method, k.alias(op.x), op.xKind, op.victim, k.alias(op.cookie), op.origin, time.Now().Format("05.000"))
+				resp := conn.Do(harness.Req{Method: op.method, Path: path, Host: k.host, Headers: hdr, Body: body}.Bytes())
+				op.ret = s.Stamp()
+				op.status = resp.Status
+				if _, err := b.Apply(resp, op.method); err != nil {
+					s.Fail("C16.response-unparsable", "op%d %s: a strict client cannot parse the response: %v", op.id, op.method, err)
+					return
+				}
+				now, _ := b.Get(k.cookieName)
+				s.Logf("op%d b%d ret status=%d ran=%v cookie now %s", op.id, bi, op.status, op.ran, k.alias(now))
+			}
+		})
+	}
+	join(&wg)
+	s.SetPreempt(0)
+	if s.Failed() {
+		return
+	}
+
+	ops := *k.ops
+	h := newHasher().str(k.cfgLine)
+	admitted, rejected, overlapReplays := 0, 0, 0
+	presenters := map[string][]*csrfOp{} // token -> unsafe requests that presented it
+	for _, op := range ops {
+		if op.kind == "unsafe" && op.x != "" {
+			presenters[op.x] = append(presenters[op.x], op)
+		}
+	}
+	for _, op := range ops {
+		if op.ret == 0 {
+			s.Fail("C16.progress", "op%d never returned", op.id)
+			continue
+		}
+		if op.kind == "safe" {
+			if !op.ran || op.status != 200 {
+				s.Fail("C16.safe-blocked", "op%d (b%d GET /page) is a safe request but ran=%v status=%d", op.id, op.br, op.ran, op.status)
+			}
+			h.str("safe")
+			continue
+		}
+		var deny []string
+		if op.origin != "" {
+			if ok, _ := csrfAllowed(op.origin, "http", op.host, k.exact, k.wild); !ok {
+				deny = append(deny, "origin-mismatch")
+			}
+		}
+		switch {
+		case op.x == "":
+			deny = append(deny, "no-token")
+		case k.extractor != "cookie" && op.x != op.cookie:
+			deny = append(deny, "cookie-mismatch")
+		}
+		if op.x != "" && k.tokens[op.x] == nil {
+			deny = append(deny, "unissued")
+		}
+		class := "admit"
+		if len(deny) > 0 {
+			class = deny[0]
+			if op.ran {
+				id := map[string]string{"origin-mismatch": "C16.origin-mismatch-admitted", "no-token": "C16.no-token-admitted", "cookie-mismatch": "C16.cookie-mismatch-admitted", "unissued": "C16.unissued-token-admitted"}[deny[0]]
+				s.Fail(id, "op%d (b%d %s http://%s/do, concurrent browsers) reached the protected handler although the model rejects it: %s [token %s(%s), cookie %s, Origin %q]",
+					op.id, op.br, op.method, op.host, strings.Join(deny, ","), k.alias(op.x), op.xKind, k.alias(op.cookie), op.origin)
+			}
+		}
+		if op.ran && k.singleUse {
+			// single use: nobody issued after the handler ran for this token may be admitted with it
+			for _, a := range presenters[op.x] {
+				if a != op && a.ran && a.hstart < op.issue {
+					s.Fail("C16.consumed-token-admitted", "op%d (b%d %s, issued at event %d) reached the protected handler with the single-use token %s although the protected handler had already been entered (event %d) for op%d (b%d), which presented the same token%s",
+						op.id, op.br, op.method, op.issue, k.alias(op.x), a.hstart, a.id, a.br, map[bool]string{true: " and was still inside the handler", false: ""}[a.ret > op.issue])
+					break
+				}
+			}
+		}
+		if op.victim >= 0 {
+			if v := ops[op.victim]; v.ran && v.ret > op.issue {
+				overlapReplays++
+				class += "+replay-in-handler"
+			} else {
+				class += "+replay"
+			}
+		}
+		// completeness: the browser's current token, presented by nobody else, acceptable origin
+		if len(deny) == 0 && op.xKind == "current" && len(presenters[op.x]) == 1 {
+			if !op.ran {
+				s.Fail("C16.valid-request-rejected", "op%d (b%d %s http://%s/do, concurrent browsers) was rejected with status %d although it presented the token %s its browser had just been given, which no other request presented; Origin %q",
+					op.id, op.br, op.method, op.host, op.status, k.alias(op.x), op.origin)
+			} else if op.status != 200 {
+				s.Fail("C16.admitted-status", "op%d ran the protected handler (which answers 200) but the client got %d", op.id, op.status)
+			}
+		}
+		if op.ran {
+			admitted++
+		} else {
+			rejected++
+		}
+		h.str(op.xKind).str(class).str(strconv.FormatBool(op.ran))
+	}
+	s.CountN("probe_concurrent_unsafe_admitted", admitted)
+	s.CountN("probe_concurrent_unsafe_rejected", rejected)
+	s.CountN("probe_replay_issued_while_victim_in_handler", overlapReplays)
+	s.Count("probe_concurrent_runs")
+	info.StateHash = h.h
+	info.Nontrivial = overlapReplays > 0
+	info.Sample = map[string]any{"config": k.cfgLine, "requests": len(ops), "unsafe_admitted": admitted, "unsafe_rejected": rejected, "replays_in_handler": overlapReplays}
 }
